@@ -5,7 +5,9 @@
     construction.)  The constructor theorems are in the second half. *)
 From VF Require Import Base Iter Enc Lru LruStep Slru TwoQ Arc CacheStep Tiny WTiny TinyStep
   BaseFacts LruFacts Counts SlruFacts TwoQFacts ArcFacts TinyFacts WTinyFacts Run C01Proofs.
-From Coq Require Import NArith.
+From Coq Require Import NArith ZArith Reals.
+From Flocq Require Import Core.Core IEEE754.Binary IEEE754.Bits IEEE754.BinarySingleNaN.
+From VF Require Import Sizing SizingFacts.
 
 Theorem C05_slru_total : forall (pc fc : nat) (ops : list sop) (o : sop),
   (1 <= pc)%nat -> (1 <= fc)%nat ->
@@ -82,6 +84,59 @@ Theorem C05_tiny_ctor_rejects : forall samples exp locs sds,
   tl_new 0 samples exp locs sds = None /\ tl_new 5 0 exp locs sds = None.
 Proof. intros. split; unfold tl_new; cbn; [destruct (N.eqb samples 0)|]; reflexivity. Qed.
 
+
+(** ** constructors (Sizing.v: Flocq binary64 for the ratio arithmetic; ratios are bit patterns) *)
+
+(** every constructor call of the grid alphabet returns a result (Ok with the sub-sizes, or Err):
+    the model has no panic site, and the correspondence run checks the real constructors under
+    catch_unwind against it on the whole argument grid *)
+Theorem C05_ctor_total :
+  (forall a, exists out, ctor_step [140; 1; a]%Z = Some out) /\
+  (forall a b, exists out, ctor_step [140; 2; a; b]%Z = Some out) /\
+  (forall a b c, exists out, ctor_step [140; 3; a; b; c]%Z = Some out) /\
+  (forall a b c, exists out, ctor_step [140; 4; a; b; c]%Z = Some out) /\
+  (forall a, exists out, ctor_step [140; 5; a]%Z = Some out) /\
+  (forall a b c d, exists out, ctor_step [140; 6; a; b; c; d]%Z = Some out) /\
+  (forall a b, exists out, ctor_step [140; 7; a; b]%Z = Some out) /\
+  (forall a b c, exists out, ctor_step [140; 8; a; b; c]%Z = Some out).
+Proof. repeat split; intros; cbn [ctor_step]; eauto. Qed.
+
+(** a ratio is accepted exactly when it is a finite number of [0, 1]; NaN, the infinities and
+    (for the false positive ratio) the end points are rejected *)
+Theorem C05_ratio_validation : forall r,
+  ratio_ok r = true <-> is_finite r = true /\ (0 <= B2R r <= 1)%R.
+Proof. exact ratio_ok_spec. Qed.
+Theorem C05_nan_rejected :
+  ratio_ok B754_nan = false /\ ratio_ok (B754_infinity false) = false /\ ratio_ok (B754_infinity true) = false /\
+  fp_ok B754_nan = false /\ fp_ok (B754_infinity false) = false /\ fp_ok (B754_infinity true) = false /\
+  fp_ok f_zero = false /\ fp_ok f_one = false.
+Proof. exact nan_and_infinities_rejected. Qed.
+
+(** the 2Q constructor (both with_2q_parameters and the builder): the documented rejections, in
+    order, and a ghost quota that floors to 0 is InvalidSize(0) *)
+Theorem C05_twoq_ctor : forall size rr gr,
+  (0 <= size)%Z ->
+  (size = 0%Z -> ctor_twoq size rr gr = err 1 0) /\
+  (size <> 0%Z -> ratio_ok (f_of_bits rr) = false -> ctor_twoq size rr gr = err 2 rr) /\
+  (size <> 0%Z -> ratio_ok (f_of_bits rr) = true -> ratio_ok (f_of_bits gr) = false ->
+     ctor_twoq size rr gr = err 3 gr) /\
+  (size <> 0%Z -> ratio_ok (f_of_bits rr) = true -> ratio_ok (f_of_bits gr) = true ->
+     let rs := f_floor_usize (f_mul (f_of_Z size) (f_of_bits rr)) in
+     let es := f_floor_usize (f_mul (f_of_Z size) (f_of_bits gr)) in
+     ctor_twoq size rr gr = if (es =? 0)%Z then err 1 0 else [0; size; rs; es]%Z).
+Proof. exact ctor_twoq_spec. Qed.
+
+(** zero sizes and zero samples are rejected with the matching error *)
+Theorem C05_zero_sizes_rejected : forall a b c d fp,
+  ctor_rawlru 0 = err 1 0 /\ ctor_arc 0 = err 1 0 /\ ctor_slru 0 a = err 1 0 /\ ctor_slru (Z.pos b) 0 = err 1 0 /\
+  ctor_wtiny_sizes 0 a c d fp = err 4 0 /\ ctor_wtiny_sizes (Z.pos b) 0 c d fp = err 5 0 /\
+  ctor_wtiny_sizes (Z.pos b) (Z.pos b) 0 d fp = err 6 0 /\
+  ctor_wtiny_sizes (Z.pos b) (Z.pos b) (Z.pos b) 0 fp = err 7 0 /\ ctor_tiny a 0 fp = err 7 0.
+Proof.
+  intros. unfold ctor_rawlru, ctor_arc, ctor_slru, ctor_wtiny_sizes, ctor_tiny. cbn [Z.eqb].
+  repeat split; try reflexivity. destruct a; reflexivity.
+Qed.
+
 Print Assumptions C05_slru_total.
 Print Assumptions C05_twoq_total.
 Print Assumptions C05_arc_total.
@@ -93,3 +148,8 @@ Print Assumptions C05_tiny_compare.
 Print Assumptions C05_tiny_reset_clear.
 Print Assumptions C05_tiny_ctor.
 Print Assumptions C05_tiny_ctor_rejects.
+Print Assumptions C05_ctor_total.
+Print Assumptions C05_ratio_validation.
+Print Assumptions C05_nan_rejected.
+Print Assumptions C05_twoq_ctor.
+Print Assumptions C05_zero_sizes_rejected.
